@@ -11,6 +11,7 @@ import (
 	"path/filepath"
 	"sort"
 	"strings"
+	"sync/atomic"
 	"testing"
 	"testing/synctest"
 	"time"
@@ -198,6 +199,22 @@ func (x *nsExec) step(op nsOp) {
 		n.stop()
 		x.quiesce()
 		x.restartSM[n.idx] = x.restartEntry(n)
+		snap := x.snapshotStores(n)
+		if p := x.pos(n); true {
+			e := x.restartSM[n.idx]
+			if p.VH == x.c.H0 {
+				x.count("restart:mirror-voting-initial-height")
+			}
+			if p.CH == x.c.H0 {
+				x.count("restart:mirror-committing-initial-height")
+			}
+			if e.H == x.c.H0 {
+				x.count("restart:machine-in-initial-height")
+			}
+			if x.c.Doc != 0 && (p.VH == x.c.H0 || p.CH == x.c.H0 || e.H == x.c.H0) {
+				x.count("restart:initial-height+initchain-override")
+			}
+		}
 		n.mu.Lock()
 		n.incarnation++
 		n.finsThisInc = 0
@@ -209,6 +226,7 @@ func (x *nsExec) step(op nsOp) {
 		x.faultRestart = true
 		x.count("op:restart")
 		x.quiesce()
+		x.compareStores(n, snap)
 	case "lc":
 		x.lockCarry(op)
 	case "bprop":
@@ -829,6 +847,90 @@ func (x *nsExec) byzSplit(op nsOp) {
 }
 
 // ---------------------------------------------------------------------------
+// Restart: what is durable before the stop must be there, unchanged, afterwards (C10).
+
+type nsStoreSnap struct {
+	vh, ch uint64
+	vr, cr uint32
+	mirror bool
+	fins   map[uint64]string // height -> round|hash|apphash|valset hashes
+	chs    map[uint64]string // height -> header hash|proof round
+}
+
+func (x *nsExec) snapshotStores(n *nsNode) nsStoreSnap {
+	var s nsStoreSnap
+	s.fins, s.chs = map[uint64]string{}, map[uint64]string{}
+	if vh, vr, ch, cr, err := n.ms.NetworkHeightRound(x.ctx); err == nil {
+		s.vh, s.vr, s.ch, s.cr, s.mirror = vh, vr, ch, cr, true
+	}
+	for h := x.c.H0 - 1; ; h++ {
+		r, hash, vs, app, err := n.fs.LoadFinalizationByHeight(x.ctx, h)
+		if err != nil {
+			if h > s.vh+1 {
+				break
+			}
+			continue
+		}
+		s.fins[h] = fmt.Sprintf("%d|%x|%x|%x|%x", r, hash, app, vs.PubKeyHash, vs.VotePowerHash)
+	}
+	for h := x.c.H0; h <= s.vh; h++ {
+		if c, err := n.chs.LoadCommittedHeader(x.ctx, h); err == nil {
+			s.chs[h] = fmt.Sprintf("%x|%d", c.Header.Hash, c.Proof.Round)
+		}
+	}
+	return s
+}
+
+func (x *nsExec) compareStores(n *nsNode, before nsStoreSnap) {
+	after := x.snapshotStores(n)
+	if before.mirror {
+		b, a := nsHR{before.vh, before.vr}, nsHR{after.vh, after.vr}
+		if !after.mirror || a.less(b) || (nsHR{after.ch, after.cr}).less(nsHR{before.ch, before.cr}) {
+			x.failf("", "c10-regression", "node %d: mirror position after restart voting %d/%d committing %d/%d is behind the recorded one (voting %d/%d committing %d/%d)", n.idx, after.vh, after.vr, after.ch, after.cr, before.vh, before.vr, before.ch, before.cr)
+		}
+	}
+	for h, v := range before.fins {
+		if after.fins[h] != v {
+			x.failf("", "c10-regression", "node %d: stored finalization of height %d changed across the restart", n.idx, h)
+		}
+	}
+	for h, v := range before.chs {
+		if after.chs[h] != v {
+			x.failf("", "c10-regression", "node %d: committed header of height %d changed across the restart", n.idx, h)
+		}
+	}
+}
+
+// checkParticipation: a node that is a member of the prescribed set, whose
+// strategy just decided its prevote for the round both its machine and its
+// mirror are in, has that prevote in its own round store at the next
+// quiescence point. (Not evaluated when the machine logged an error, e.g. the
+// refused double action after a restart inside a round it had already voted in.)
+func (x *nsExec) checkParticipation(n *nsNode) {
+	n.mu.Lock()
+	d, errs, inc := n.prevoteDec, n.errLogsInc, n.incarnation
+	n.prevoteDec.Set = false
+	n.mu.Unlock()
+	if !d.Set || !n.alive || errs > 0 || d.Inc != inc {
+		return
+	}
+	p := x.pos(n)
+	if p.SH != d.H || p.SR != d.R || p.VH != d.H || p.VR != d.R {
+		return
+	}
+	_, pvc, _ := x.roundState(n, d.H, d.R)
+	want := string(nsKeyID(n.valIdx))
+	for _, sigs := range pvc.BlockSignatures {
+		for _, sg := range sigs {
+			if string(sg.KeyID) == want {
+				return
+			}
+		}
+	}
+	x.failf("", "participation", "node %d (validator %d of the prescribed set, incarnation %d) decided its prevote for height %d round %d, machine and mirror are both in that round, but no prevote of its key is in its round store", n.idx, n.valIdx, inc, d.H, d.R)
+}
+
+// ---------------------------------------------------------------------------
 // Oracle.
 
 // nsNoCert (development aid for sensitivity runs) switches the two certificate
@@ -860,7 +962,13 @@ func (x *nsExec) check(o *nsOracle, final bool) {
 	for _, n := range x.nodes {
 		n.mu.Lock()
 		fins := append([]nsFin(nil), n.fins...)
+		viol := n.viol
+		n.viol = nil
 		n.mu.Unlock()
+		for _, v := range viol {
+			x.failf("", v.clause, "%s", v.detail)
+		}
+		x.checkParticipation(n)
 		for i := range fins {
 			f := fins[i]
 			if f.checked {
@@ -935,12 +1043,14 @@ func (x *nsExec) check(o *nsOracle, final bool) {
 // Case execution.
 
 type nsOutcome struct {
-	fail      *nsFailure
-	nontriv   bool
-	labels    []string
-	cnt       map[string]int64
-	heights   int
-	finalized []int
+	restartInitial    int64 // restarts executed while the node was still at the initial height
+	restartInitialOvr int64 // ... on a chain whose InitChain overrode the genesis document
+	fail              *nsFailure
+	nontriv           bool
+	labels            []string
+	cnt               map[string]int64
+	heights           int
+	finalized         []int
 }
 
 func nsRunCase(t *testing.T, st *vk.Stats, c nsCase) nsOutcome {
@@ -982,7 +1092,7 @@ func nsRunCase(t *testing.T, st *vk.Stats, c nsCase) nsOutcome {
 			if x.fail != nil {
 				break
 			}
-			x.now++
+			atomic.AddInt64(&x.now, 1)
 			x.step(op)
 			if x.fail == nil {
 				x.quiesce()
@@ -1067,6 +1177,13 @@ func nsRunCase(t *testing.T, st *vk.Stats, c nsCase) nsOutcome {
 		lab(x.faultDropDup, "drop-or-dup")
 		lab(x.cnt["op:part"] > 0, "partition")
 		lab(c.ValChange > 0, "valchange")
+		out.labels = append(out.labels, "doc="+[]string{"same", "other-powers", "subset", "superset", "none"}[c.Doc])
+		lab(x.cnt["restart:mirror-voting-initial-height"] > 0, "restart@mirror-voting-initial-height")
+		lab(x.cnt["restart:mirror-committing-initial-height"] > 0, "restart@mirror-committing-initial-height")
+		lab(x.cnt["restart:machine-in-initial-height"] > 0, "restart@machine-in-initial-height")
+		lab(x.cnt["restart:initial-height+initchain-override"] > 0, "restart@initial-height+initchain-override")
+		out.restartInitial = x.cnt["restart:mirror-voting-initial-height"] + x.cnt["restart:mirror-committing-initial-height"] + x.cnt["restart:machine-in-initial-height"]
+		out.restartInitialOvr = x.cnt["restart:initial-height+initchain-override"]
 		lab(two >= 2, "two-nodes-two-heights")
 		lab(out.heights == 0, "heights=0")
 		lab(out.heights == 1, "heights=1")
@@ -1087,7 +1204,18 @@ func nsRunCase(t *testing.T, st *vk.Stats, c nsCase) nsOutcome {
 	return out
 }
 
+// nsMode is what distinguishes the three test functions that share the interpreter.
+type nsMode struct {
+	prop, test string
+	// nontrivial decides the evidence class of an executed case (nil: the C03 rule).
+	nontrivial func(c nsCase, out nsOutcome) bool
+}
+
 func nsRun(t *testing.T, ft vk.TB, st *vk.Stats, c nsCase) {
+	nsRunMode(t, ft, st, c, nsMode{prop: "C03", test: "TestVerifC03Agreement"})
+}
+
+func nsRunMode(t *testing.T, ft vk.TB, st *vk.Stats, c nsCase, m nsMode) {
 	if msg := nsValidate(c); msg != "" {
 		ft.Fatalf("invalid case: %s", msg)
 	}
@@ -1095,14 +1223,20 @@ func nsRun(t *testing.T, ft vk.TB, st *vk.Stats, c nsCase) {
 		st.Sample(c)
 	}
 	st.WAL(c)
-	nsWAL(c)
+	if m.prop == "C03" {
+		nsWAL(c)
+	}
 	var out nsOutcome
 	st.Guard(ft, c, func() {
 		out = nsRunCase(t, st, c)
 	})
-	st.Case(out.nontriv, vk.FP(c), out.labels...)
+	nontriv := out.nontriv
+	if m.nontrivial != nil {
+		nontriv = m.nontrivial(c, out)
+	}
+	st.Case(nontriv, vk.FP(c), out.labels...)
 	for k, v := range out.cnt {
-		if strings.HasPrefix(k, "held:") || strings.HasPrefix(k, "reoffer:") || strings.HasPrefix(k, "res:") || strings.HasPrefix(k, "split:") || strings.HasPrefix(k, "op:") || strings.HasPrefix(k, "byz:") || strings.HasPrefix(k, "errlog:") || k == "next-height-ph" {
+		if strings.HasPrefix(k, "held:") || strings.HasPrefix(k, "reoffer:") || strings.HasPrefix(k, "res:") || strings.HasPrefix(k, "split:") || strings.HasPrefix(k, "op:") || strings.HasPrefix(k, "byz:") || strings.HasPrefix(k, "errlog:") || strings.HasPrefix(k, "restart:") || k == "next-height-ph" {
 			st.LabelN("n:"+k, v)
 		}
 	}
@@ -1154,6 +1288,9 @@ func nsValidate(c nsCase) string {
 	}
 	if c.H0 == 0 {
 		return "h0"
+	}
+	if c.Doc < 0 || c.Doc > 4 || c.DocArg < 0 {
+		return "doc"
 	}
 	return ""
 }
@@ -1241,6 +1378,11 @@ func nsGenConfig(rt *rapid.T) nsCase {
 	}
 	c.Byz = isByz
 	c.H0 = uint64(rapid.SampledFrom([]int{1, 1, 1, 5}).Draw(rt, "h0"))
+	// What the genesis document says about validators (0: the truth; else InitChain overrides it).
+	c.Doc = rapid.SampledFrom([]int{0, 0, 0, 0, 1, 2, 3, 4}).Draw(rt, "doc")
+	if c.Doc != 0 {
+		c.DocArg = rapid.IntRange(0, 7).Draw(rt, "docarg")
+	}
 	if rapid.IntRange(0, 3).Draw(rt, "valchange") == 0 && os.Getenv("NS_NOVALCHANGE") == "" {
 		c.ValChange = rapid.IntRange(1, 2).Draw(rt, "valchangeEvery")
 	}
@@ -1353,6 +1495,110 @@ func nsGenCase(rt *rapid.T) nsCase {
 	c := nsGenConfig(rt)
 	c.Ops = nsGenOps(rt, 400)
 	return c
+}
+
+// nsGenRestartCase generates the schedules of the two engine-restart tests:
+// some activity inside the initial height, restarts of one or two nodes while the
+// chain is still there (voting it, or committing it right after the first commit),
+// then a benign network, optionally followed by more of the general schedule.
+func nsGenRestartCase(rt *rapid.T) nsCase {
+	c := nsGenConfig(rt)
+	// Mostly chains whose real initial set is not the one in the genesis document.
+	c.Doc = rapid.SampledFrom([]int{0, 1, 1, 2, 2, 3, 3, 4, 4, 4}).Draw(rt, "doc2")
+	c.DocArg = 0
+	if c.Doc != 0 {
+		c.DocArg = rapid.IntRange(0, 7).Draw(rt, "docarg2")
+	}
+	small := func(label string) int { return rapid.IntRange(0, 63).Draw(rt, label) }
+	var ops []nsOp
+	restart := func() {
+		ops = append(ops, nsOp{K: "restart", A: small("node")})
+	}
+	for round := rapid.IntRange(1, 2).Draw(rt, "rounds"); round > 0; round-- {
+		switch rapid.IntRange(0, 8).Draw(rt, "before") {
+		case 0: // nothing: restart a node that has seen nothing yet
+		case 1: // the proposal only
+			ops = append(ops, nsOp{K: "dk", A: 63, B: 0, C: 39})
+		case 2: // a few messages
+			for j := rapid.IntRange(1, 8).Draw(rt, "n"); j > 0; j-- {
+				ops = append(ops, nsOp{K: "d", A: rapid.IntRange(0, 60).Draw(rt, "i")})
+			}
+		case 3: // proposal and prevotes, no precommits
+			ops = append(ops, nsOp{K: "dk", A: 63, B: 2, C: 39}, nsOp{K: "dk", A: 63, B: 2, C: 39})
+		case 4: // part of a round
+			ops = append(ops, nsOp{K: "settle", A: 0})
+		case 5: // the first commit: mirrors are committing the initial height, machines wait
+			ops = append(ops, nsOp{K: "settle", A: 3})
+		case 6: // ... and the machines have entered the second height
+			ops = append(ops, nsOp{K: "settle", A: 3}, nsOp{K: "t", A: 1})
+		case 7: // proposal withheld: the initial height goes to round 1
+			ops = append(ops, nsOp{K: "wh"}, nsOp{K: "t", A: 3}, nsOp{K: "settle", A: small("s")})
+		default: // lock carried into round 1 of the initial height
+			ops = append(ops, nsOp{K: "lc", A: small("a"), B: small("b")})
+		}
+		restart()
+		if rapid.IntRange(0, 2).Draw(rt, "second") == 0 {
+			if rapid.Bool().Draw(rt, "between") {
+				ops = append(ops, nsOp{K: "df", A: small("k")})
+			}
+			restart()
+		}
+		// benign network afterwards
+		for j := rapid.IntRange(1, 4).Draw(rt, "after"); j > 0; j-- {
+			ops = append(ops, nsOp{K: "settle", A: 3}, nsOp{K: "t", A: rapid.IntRange(1, 3).Draw(rt, "t")})
+		}
+		ops = append(ops, nsOp{K: "settle", A: 3})
+	}
+	if rapid.IntRange(0, 3).Draw(rt, "tail") == 0 {
+		ops = append(ops, nsGenOps(rt, 40)...)
+	}
+	c.Ops = ops
+	return c
+}
+
+const nsRestartRule = "case = netsim configuration (2-5 real engines, 0-2 Byzantine keys, genesis document that declares the chain's initial validator set / other powers / a subset / a superset / no validators, with the application's InitChain response overriding it) and a schedule of the form: activity inside the initial height, restart of one or two nodes while mirror or state machine are still at the initial height, benign network; non-trivial = at least one such restart was executed and >= 2 correct nodes finalized >= 1 height afterwards; distinct = distinct JSON of the case"
+
+func nsRestartNontrivial(needOverride bool) func(c nsCase, out nsOutcome) bool {
+	return func(c nsCase, out nsOutcome) bool {
+		n := 0
+		for _, k := range out.finalized {
+			if k >= 1 {
+				n++
+			}
+		}
+		if needOverride {
+			return out.restartInitialOvr > 0 && n >= 2
+		}
+		return out.restartInitial > 0 && n >= 2
+	}
+}
+
+func nsRestartTest(t *testing.T, m nsMode) {
+	st := vk.NewStats(m.prop, m.test, nsRestartRule)
+	defer st.Flush()
+	var c nsCase
+	if ok, err := vk.LoadReplay(m.prop, m.test, &c); err != nil {
+		t.Fatal(err)
+	} else if ok {
+		nsRunMode(t, t, st, c, m)
+		return
+	} else if vk.Replaying() {
+		t.Skip("replay file is for another test")
+	}
+	rapid.Check(t, func(rt *rapid.T) {
+		nsRunMode(t, rt, st, nsGenRestartCase(rt), m)
+	})
+}
+
+// C07 (engine level): after a restart inside the initial height the node keeps
+// validating and voting with the set the chain really started with.
+func TestVerifC07EngineRestartSets(t *testing.T) {
+	nsRestartTest(t, nsMode{prop: "C07", test: "TestVerifC07EngineRestartSets", nontrivial: nsRestartNontrivial(true)})
+}
+
+// C10 (engine level): a restarted engine resumes without loss or regression.
+func TestVerifC10EngineRestart(t *testing.T) {
+	nsRestartTest(t, nsMode{prop: "C10", test: "TestVerifC10EngineRestart", nontrivial: nsRestartNontrivial(false)})
 }
 
 // ---------------------------------------------------------------------------
